@@ -31,6 +31,12 @@ Definition list_close_rel (mag : Q) (m : list Q) (o : list fl) : bool := all2 (f
 Definition vec_close_rel (mag : Q) (m : vec3 Q) (o : list fl) : bool := list_close_rel mag (vlist m) o.
 Definition vecs_close_rel (mag : Q) (m : list (vec3 Q)) (o : list (list fl)) : bool := all2 (vec_close_rel mag) m o.
 
+(* size of the cloud itself: the largest side of its bounding box (0 for no points / one point).  Distances between the
+   points and the box size are judged relative to THIS, not to how far the cloud is from the origin: a formula that
+   cancels for far-away clouds must not hide behind the magnitude of the coordinates *)
+Definition pts_span (ps : list (vec3 Q)) : Q :=
+  match ps with [] => 0 | p :: r => vmag (vsub QOps (points_max QOps p r) (points_min QOps p r)) end.
+
 Definition plane_obs (pl : plane Q) : list Q := vlist (pref pl) ++ vlist (pnormal pl).
 Definition box_observables (b : box Q) : list Q :=
   [min_x b; min_y b; min_z b; max_x QOps b; max_y QOps b; max_z QOps b; mid_x QOps b; mid_y QOps b; mid_z QOps b;
@@ -42,15 +48,20 @@ Definition box_observables (b : box Q) : list Q :=
 Definition check_case (c : case) : bool :=
   match c with
   | CBox o s obs =>
-      res_agree (fun b l => list_close_rel (Qmax' (vmag o) (vmag s)) (box_observables b) l) (box_ctor QOps o s) obs
+      (* all box observables are exact on the dyadic inputs of the generators: judged relative to the SIZE of the box *)
+      res_agree (fun b l => list_close_rel (vmag s) (box_observables b) l) (box_ctor QOps o s) obs
   | CFromPoints ps obs =>
-      res_agree (fun b l => list_close_rel (pts_mag ps) (vlist (borigin b) ++ vlist (bsize b)) l) (from_points QOps ps) obs
+      res_agree (fun b l => match l with
+                           | [o0; o1; o2; s0; s1; s2] =>
+                               list_close_rel (pts_mag ps) (vlist (borigin b)) [o0; o1; o2] &&
+                               list_close_rel (pts_span ps) (vlist (bsize b)) [s0; s1; s2]
+                           | _ => false end) (from_points QOps ps) obs
   | CContains o s rows obs =>
       bool_list_eqb (map (fun r => contains QOps (MkBox o s) (fst r) (snd r)) rows) obs
   | CExtent ps obs =>
       res_agree (fun (m : ext_state) (ob : fl * Z * Z) =>
                    let '(d, i, j) := m in let '(od, oi, oj) := ob in
-                   fl_close_rel (pts_mag ps) d od && (i =? oi)%Z && (j =? oj)%Z) (extent QOps ps) obs
+                   fl_close_rel (pts_span ps) d od && (i =? oi)%Z && (j =? oj)%Z) (extent QOps ps) obs
   | CPercentile ps axis q obs =>
       res_agree (fun r l => list_close_rel (pts_mag ps) (vlist r) l) (percentile QOps ps axis q) obs
   | CBBox vs obs =>
